@@ -5,7 +5,7 @@
    or stateful things cannot leak: hash sets are used for membership only, and an earlier generation on disk does not
    influence the next one. That the implementation agrees with this model — per process, per location, per input syntax
    — is what the determinism run checks (five processes per case, JSON and YAML, fresh / other location / in place). *)
-From LN Require Import Model.Crate Model.Fs Proofs.ShakeP Proofs.FsP Proofs.CrateP Proofs.DetP.
+From LN Require Import Model.Crate Model.Fs Proofs.ShakeP Proofs.FsP Proofs.CrateP Proofs.DetP Proofs.FuelP.
 
 (* pruning does not depend on how the set of used names is implemented (iteration order, hashing): any two lawful
    set implementations give the same table *)
@@ -41,6 +41,12 @@ Theorem C09_in_scope_content_is_the_plan : forall plan t p, plan_wf plan -> wf t
    planned plan p = true \/ exists c, lookup t p = Some c /\ has_static (decode c) = true).
 Proof. exact cleanup_exact. Qed.
 Print Assumptions C09_in_scope_content_is_the_plan.
+
+(* the model's own recursion budget is not an input either: any two fuels at which the pipeline answers give the same crate *)
+Theorem C09_fuel_is_not_an_input : forall sp cfg tp f g x y,
+  generate f sp cfg tp = Ok x -> generate g sp cfg tp = Ok y -> x = y.
+Proof. exact generate_deterministic_in_fuel. Qed.
+Print Assumptions C09_fuel_is_not_an_input.
 
 Theorem C09_nonvacuous :
   SetOK ListSet /\
